@@ -25,8 +25,6 @@ ID = 'C13'
 RTOL = 1e-9
 ATOL = 1e-11
 KTOL = 1e-12
-# The model of circle_segment_from_three_points / cylinder follows the PROPERTY (True) or the pinned code (False)
-FOLLOW_PROPERTY = True
 RULE = ('every factory of the property (line, polygon, n_gon, circle p2C0/p4C1, ellipse, circle_segment, '
         'circle_segment_from_three_points, square, cube, disc radial/square, sphere, cylinder, torus, solid '
         'sphere/cylinder/torus, revolve/extrude of random curves and surfaces, rotate_local_x_axis, '
@@ -494,9 +492,7 @@ def _three_aux(s):
 
 def _haxis(s):
     ax = np.array(s['normal'], dtype=float)
-    if FOLLOW_PROPERTY:
-        return (s['h'] * ax / np.linalg.norm(ax)).tolist()
-    return (s['h'] * ax).tolist()
+    return (s['h'] * ax / np.linalg.norm(ax)).tolist()
 
 
 def model_line(s):
@@ -522,13 +518,10 @@ def model_line(s):
         return line('f_ellipse', CONSTS, s['r1'], s['r2'], s['center'], s['normal'], Word(s['type']), s['xaxis'], a, lam)
     if op == 'arc':
         a, lam = placement(s)
-        if s['theta'] == 2 * pi:   # the code returns circle(r, center, normal): x-axis dropped
-            lam = float_lam([1, 0, 0], [float(x) for x in a]) or 1
         return line('f_arc', CONSTS, s['theta'], s['r'], s['center'], s['normal'], s['xaxis'], arc_aux(s['theta'], ex), a, lam)
     if op == 'three':
         radius, thS, arcS, thL, arcL, aW, lamW, aC, lamC = _three_aux(s)
-        return line('f_three', CONSTS, TOL_CP, s['x'][0], s['x'][1], s['x'][2], radius, thS, arcS, thL, arcL,
-                    not FOLLOW_PROPERTY, aW, lamW, aC, lamC)
+        return line('f_three', CONSTS, TOL_CP, s['x'][0], s['x'][1], s['x'][2], radius, thS, arcS, thL, arcL, aW, lamW)
     if op == 'square':
         return line('f_square', s['size'], s['ll'])
     if op == 'cube':
